@@ -252,8 +252,10 @@ class C18Episode(Episode):
                            if any(e['pid'] == p for e in k.signals[:-1])]
                 if len(already) != len(missing):
                     self.viol('kill_missed_addressed_worker',
-                              'kill %r: addressed %s, signalled only %s' %
-                              (pr, sorted(ref['target']), sorted(touched)),
+                              'kill %r: addressed %s, the workers that got '
+                              'a signal themselves are %s' %
+                              (pr, sorted(ref['target']),
+                               sorted(direct & set(ref['target']))),
                               once=r.idx)
             if sig is not None:
                 wrong = [(p, s) for (p, s) in delivered
@@ -443,7 +445,7 @@ class C18(Prop):
             return {'cfg': cfg, 'ops': [], 'kind': 'desig', 'via': via,
                     'desig': d}
         cfg = gen.gen_base_cfg(rng, seed, nwatch=(2, 2, 3), kids=True,
-                               stop_children_p=0.3,
+                               stop_children_p=0.4,
                                numproc=(1, 2, 3), singleton_p=0.0,
                                kinds=('obedient', 'slow', 'stubborn'),
                                grace=[0.05, 0.25, 1.0], warmup=[0, 0.05])
@@ -496,12 +498,13 @@ class C18(Prop):
                     props['signum'] = gen_designation(rng)
                 if rng.random() < 0.4:
                     props['graceful_timeout'] = rng.choice([0, 0.1, 0.3])
-                if rng.random() < 0.25:
+                sc = cfg['watchers'][w]['opts'].get('stop_children')
+                if rng.random() < (0.6 if sc else 0.15):
                     # a child of one of the workers disappears while the
                     # request is being carried out
                     ops.append({'op': 'die', 'w': w, 'j': rng.randrange(3),
                                 'child': rng.randrange(2), 'how': 'kill',
-                                'place': {'calls': rng.randrange(1, 14)}})
+                                'place': {'calls': rng.randrange(1, 10)}})
                 ops.append({'op': 'req', 'cmd': 'kill', 'w': w,
                             'props': props,
                             'waiting': rng.random() < 0.5, 'place': 'now',
